@@ -78,7 +78,7 @@ fn run_job(job: &Value) -> Value {
         ustep_locks: gu(s, "ustep_locks").unwrap_or(0),
         ustep_after: gu(s, "ustep_after").unwrap_or(24),
         ustep_hold: gu(s, "ustep_hold").unwrap_or(0),
-        ustep_budget: gu(s, "ustep_budget").unwrap_or(20000),
+        ustep_budget: gu(s, "ustep_budget").unwrap_or(120),
         list: s.get("list").and_then(|v| v.as_array()).map(|a| a.iter().filter_map(|x| x.as_u64().map(|y| y as usize)).collect()).unwrap_or_default(),
     };
     let faults: Vec<Fault> = job
